@@ -1,7 +1,7 @@
 import AkVerif.Lemmas.XlsRows
 /-!
-Helper lemmas for C18, fifth part: on a well-formed request (rectangular sheet, first attribute and
-key attributes read from columns that exist, key not longer than the attribute list, converters
+Helper lemmas for C18, fifth part: on a well-formed request (rectangular sheet, key attributes read
+from columns that exist, key not longer than the attribute list, converters
 that fail with `ValueError` only) the only exception that can end the iteration is `ValueError`:
 every other error path of the model (`IndexError`, `AttributeError`, `AssertionError`, `TypeError`,
 `KeyError`) is dead.
@@ -190,7 +190,6 @@ theorem src_is_cell {V : Type} (titles known : List Key) (row : Row) (t : Key) (
 structure RulesOk {V : Type} (cv : Conv V) (cfg : Cfg V) (titles : List Key) : Prop where
   convErr : ∀ r ∈ cfg.rules, ∀ ct, r.ct? = some ct → ∀ v e, cv.conv ct v = .error e → e = .valueError
   numId : cfg.numId ≤ cfg.rules.length
-  anchor : ∃ t ct d, cfg.rules[0]? = some (.col t ct d) ∧ t ∈ titles
   keys : ∀ k, k < cfg.numId → ∃ t ct d, cfg.rules[k]? = some (.col t ct d) ∧ t ∈ titles
 
 theorem construct_error_wf {V : Type} (cv : Conv V) (cfg : Cfg V) (titles : List Key)
@@ -241,14 +240,6 @@ theorem construct_error_wf {V : Type} (cv : Conv V) (cfg : Cfg V) (titles : List
   · cases h
   · have hn : ¬ cfg.rules.length < cfg.numId := by have := hw.numId; omega
     simp only [hn, if_false] at h
-    have hanchor : anchorOk srcs = .ok () := by
-      obtain ⟨t, ct, d, hr, ht⟩ := hw.anchor
-      obtain ⟨c, hc⟩ := hcell 0 t ct d hr ht
-      cases srcs with
-      | nil => simp at hc
-      | cons s0 ss => simp at hc; subst hc; rfl
-    rw [hanchor] at h
-    simp only [] at h
     split at h
     · rename_i e' hz
       cases h
